@@ -440,7 +440,31 @@ func rules2BitTable(c *Ctx, r *Report, itonFn *ssa.Function, itonOf map[int64]in
 			})
 		}
 	}
+	// or each row is the array a helper of the package returns for the row's index: table[i] = expand(i)
+	var rowCall *ssa.Call
+	var rowStore *ssa.Store
 	if cp == nil && direct == nil {
+		for f := range inits {
+			instrs(f, func(in ssa.Instruction) {
+				st, ok := in.(*ssa.Store)
+				if !ok {
+					return
+				}
+				ia, ok := st.Addr.(*ssa.IndexAddr)
+				if !ok || !isLoadOf(ia.X, g) {
+					return
+				}
+				cl, ok := st.Val.(*ssa.Call)
+				if !ok || len(cl.Call.Args) != 1 || cl.Call.Args[0] != ia.Index {
+					return
+				}
+				if h := cl.Call.StaticCallee(); h != nil && h.Blocks != nil && h.Pkg == f.Pkg && len(h.Params) == 1 {
+					rowCall, rowStore, initFn = cl, st, f
+				}
+			})
+		}
+	}
+	if cp == nil && direct == nil && rowCall == nil {
 		r.undecided("T-2BIT", where, "init-shape", c.pos(g.Pos()), "neither `copy(table[i][:], row)` nor a single in-place store `table[i][p] = v` found in an initialiser")
 		return
 	}
@@ -450,6 +474,9 @@ func rules2BitTable(c *Ctx, r *Report, itonFn *ssa.Function, itonOf map[int64]in
 	if cp != nil {
 		pos = c.pos(cp.Pos())
 		dstIdx = cp.Call.Args[0].(*ssa.Slice).X.(*ssa.IndexAddr).Index
+	} else if rowCall != nil {
+		pos = c.pos(rowStore.Pos())
+		dstIdx = rowStore.Addr.(*ssa.IndexAddr).Index
 	} else {
 		pos = c.pos(direct.Pos())
 		dstIdx = direct.Addr.(*ssa.IndexAddr).X.(*ssa.IndexAddr).Index
@@ -479,7 +506,43 @@ func rules2BitTable(c *Ctx, r *Report, itonFn *ssa.Function, itonOf map[int64]in
 	r.check(size >= 256, "T-2BIT", where, "size", c.pos(g.Pos()), fmt.Sprintf("table has %d rows", size), fmt.Sprintf("table has %d rows but is indexed by a byte", size))
 	// the source of the copy: a local 4-byte slice filled by the inner loop
 	var stores []*ssa.Store
-	if cp != nil {
+	evalFn := initFn          // where the row is computed
+	var iVal ssa.Value = iphi // what stands for the row index there
+	if rowCall != nil {
+		// in the helper: a local array filled by the inner loop and returned whole
+		h := rowCall.Call.StaticCallee()
+		evalFn, iVal = h, h.Params[0]
+		r.analysed(fname(h))
+		var arr *ssa.Alloc
+		okRet := true
+		instrs(h, func(in ssa.Instruction) {
+			if rt, ok := in.(*ssa.Return); ok {
+				ops := retOperands(rt)
+				ld, isLd := ops[0].(*ssa.UnOp)
+				if len(ops) != 1 || !isLd {
+					okRet = false
+					return
+				}
+				al, isAl := ld.X.(*ssa.Alloc)
+				if !isAl || (arr != nil && arr != al) {
+					okRet = false
+					return
+				}
+				arr = al
+			}
+		})
+		if !okRet || arr == nil {
+			r.undecided("T-2BIT", where, "init-shape", pos, "the row helper does not return a local array it filled")
+			return
+		}
+		instrs(h, func(in ssa.Instruction) {
+			if st, ok := in.(*ssa.Store); ok {
+				if ia, ok := st.Addr.(*ssa.IndexAddr); ok && ia.X == ssa.Value(arr) {
+					stores = append(stores, st)
+				}
+			}
+		})
+	} else if cp != nil {
 		val := cp.Call.Args[1]
 		instrs(initFn, func(in ssa.Instruction) {
 			if st, ok := in.(*ssa.Store); ok {
@@ -498,7 +561,7 @@ func rules2BitTable(c *Ctx, r *Report, itonFn *ssa.Function, itonOf map[int64]in
 	st := stores[0]
 	// inner loop variable: a phi in a loop that contains the store, other than iphi
 	var jphi *ssa.Phi
-	for _, b := range initFn.Blocks {
+	for _, b := range evalFn.Blocks {
 		for _, in := range b.Instrs {
 			if ph, ok := in.(*ssa.Phi); ok && ph != iphi && dependsOn(st.Addr.(*ssa.IndexAddr).Index, ph, map[ssa.Value]bool{}) {
 				jphi = ph
@@ -509,13 +572,25 @@ func rules2BitTable(c *Ctx, r *Report, itonFn *ssa.Function, itonOf map[int64]in
 		r.undecided("T-2BIT", where, "inner loop", c.pos(st.Pos()), "row position does not depend on an inner loop variable")
 		return
 	}
-	jl, why := findCountedLoop(jphi)
+	// the values the inner loop variable takes: 0..3 upwards, 3..0 downwards, …
+	jvals, why := enumLoopVar(jphi)
 	if why != "" {
-		r.undecided("T-2BIT", where, "inner loop", c.pos(jphi.Pos()), why)
-		return
+		jl, why2 := findCountedLoop(jphi)
+		if why2 != "" {
+			r.undecided("T-2BIT", where, "inner loop", c.pos(jphi.Pos()), why2+" / "+why)
+			return
+		}
+		jn, ok := cInt(constVal(jl.bound))
+		if !ok || jn < 0 || jn > 64 {
+			r.undecided("T-2BIT", where, "inner loop", c.pos(jphi.Pos()), "inner loop bound is not a small constant")
+			return
+		}
+		jvals = nil
+		for v := int64(0); v < jn; v++ {
+			jvals = append(jvals, v)
+		}
 	}
-	jn, ok := cInt(constVal(jl.bound))
-	if !ok || jn != 4 {
+	if len(jvals) != 4 {
 		r.violated("T-2BIT", where, "inner loop", c.pos(jphi.Pos()), "the inner loop does not run over the 4 positions of a row")
 		return
 	}
@@ -525,10 +600,10 @@ func rules2BitTable(c *Ctx, r *Report, itonFn *ssa.Function, itonOf map[int64]in
 	it, jt := make([]aval, n), make([]aval, n)
 	for k := 0; k < n; k++ {
 		dom[k] = int64(k)
-		it[k], jt[k] = aval{true, int64(k / 4)}, aval{true, int64(k % 4)}
+		it[k], jt[k] = aval{true, int64(k / 4)}, aval{true, jvals[k%4]}
 	}
-	a := &vsa{c: c, f: initFn, dom: dom, entry: st.Block(), region: map[*ssa.BasicBlock]bool{st.Block(): true},
-		preset:   map[ssa.Value][]aval{iphi: it, jphi: jt},
+	a := &vsa{c: c, f: evalFn, dom: dom, entry: st.Block(), region: map[*ssa.BasicBlock]bool{st.Block(): true},
+		preset:   map[ssa.Value][]aval{iVal: it, jphi: jt},
 		sliceTab: map[*ssa.Global][]int64{}, mapKeys: map[*ssa.Global]map[int64]bool{}, mapVals: map[*ssa.Global]map[int64]int64{}}
 	a.run()
 	if a.err != "" {
@@ -715,4 +790,80 @@ func evalSymInt(e *Sym, env map[string]int64) (int64, bool) {
 		}
 	}
 	return 0, false
+}
+
+// enumLoopVar lists the values a loop variable takes: a header phi with a constant start, a constant step and a
+// header test against a constant (at most 64 iterations).
+func enumLoopVar(phi *ssa.Phi) ([]int64, string) {
+	if len(phi.Edges) != 2 {
+		return nil, "loop variable has more than two definitions"
+	}
+	hdr := phi.Block()
+	var init, step int64
+	haveInit, haveStep := false, false
+	for k, e := range phi.Edges {
+		if hdr.Dominates(hdr.Preds[k]) {
+			bo, ok := e.(*ssa.BinOp)
+			if !ok || (bo.Op != token.ADD && bo.Op != token.SUB) || bo.X != ssa.Value(phi) {
+				return nil, "loop variable is not advanced by a constant"
+			}
+			d, ok := cInt(constVal(bo.Y))
+			if !ok || d == 0 {
+				return nil, "loop variable is not advanced by a constant"
+			}
+			if bo.Op == token.SUB {
+				d = -d
+			}
+			step, haveStep = d, true
+		} else if v, ok := cInt(constVal(e)); ok {
+			init, haveInit = v, true
+		}
+	}
+	iff, ok := lastInstr(hdr).(*ssa.If)
+	if !haveInit || !haveStep || !ok {
+		return nil, "loop variable does not start from a constant in a loop tested at its head"
+	}
+	bo, ok := iff.Cond.(*ssa.BinOp)
+	if !ok {
+		return nil, "loop test is not a comparison"
+	}
+	var lim int64
+	op := bo.Op
+	if bo.X == ssa.Value(phi) {
+		lim, ok = cInt(constVal(bo.Y))
+	} else if bo.Y == ssa.Value(phi) {
+		lim, ok = cInt(constVal(bo.X))
+		switch op {
+		case token.LSS:
+			op = token.GTR
+		case token.GTR:
+			op = token.LSS
+		case token.LEQ:
+			op = token.GEQ
+		case token.GEQ:
+			op = token.LEQ
+		}
+	} else {
+		ok = false
+	}
+	if !ok {
+		return nil, "loop test does not compare the loop variable with a constant"
+	}
+	// the true edge must stay in the loop
+	loop := naturalLoop(hdr)
+	if !loop[hdr.Succs[0]] || loop[hdr.Succs[1]] {
+		return nil, "loop test does not leave the loop on its false edge"
+	}
+	var out []int64
+	for v := init; len(out) <= 64; v += step {
+		res, okc := cmpHolds(op, int(v), int(lim))
+		if !okc {
+			return nil, "loop test operator not handled"
+		}
+		if !res {
+			return out, ""
+		}
+		out = append(out, v)
+	}
+	return nil, "loop runs more than 64 times"
 }
